@@ -1,6 +1,6 @@
 (** * C10: html.escape and quoteattr are inert for the tokenizer
     specification; anchor ids only contain [A-Za-z0-9._-]. *)
-From Coq Require Import List NArith Bool Lia.
+From Coq Require Import List NArith Bool Lia String.
 From RG Require Import Base.Str Base.Num Model.Recipe Model.Units Model.Html Model.HtmlTok.
 Import ListNotations.
 Open Scope N_scope.
@@ -155,4 +155,209 @@ Theorem escape_inert_merge x rest :
 Proof.
   unfold tokenize. rewrite escape_inert_run. cbn [app].
   apply (run_data_acc rest x (SData [])). cbn [with_acc]. rewrite app_nil_r. reflexivity.
+Qed.
+
+(** ** Attribute values *)
+Section Attr.
+Variables (tag : str) (attrs : list (str * str)) (an : str).
+
+Lemma attr_flat dq (e : N -> str) v :
+  (forall c, In c v -> forall acc,
+     steps (SAttrValue dq tag attrs an acc) (e c) = (SAttrValue dq tag attrs an (acc ++ [c]), [])) ->
+  forall acc y, run (SAttrValue dq tag attrs an acc) (flat_map e v ++ y)
+                = run (SAttrValue dq tag attrs an (acc ++ v)) y.
+Proof.
+  induction v as [|c v IH]; intros H acc y.
+  - rewrite app_nil_r. reflexivity.
+  - cbn [flat_map]. rewrite <- app_assoc. rewrite (run_steps _ _ _ _ (H c (or_introl eq_refl) acc)).
+    rewrite IH by (intros; apply H; right; assumption). rewrite <- app_assoc. reflexivity.
+Qed.
+
+Lemma sax_char (dq : bool) (c : N) acc : c <> (if dq then 34 else 39) -> c <> 0 ->
+  steps (SAttrValue dq tag attrs an acc) (sax_escape [c]) = (SAttrValue dq tag attrs an (acc ++ [c]), []).
+Proof.
+  intros Nq N0.
+  destruct (N.eq_dec c 38) as [->|N1]; [destruct dq; reflexivity|].
+  destruct (N.eq_dec c 60) as [->|N2]; [destruct dq; reflexivity|].
+  destruct (N.eq_dec c 62) as [->|N3]; [destruct dq; reflexivity|].
+  destruct (N.eq_dec c 10) as [->|N4]; [destruct dq; reflexivity|].
+  destruct (N.eq_dec c 13) as [->|N5]; [destruct dq; reflexivity|].
+  destruct (N.eq_dec c 9) as [->|N6]; [destruct dq; reflexivity|].
+  rewrite sax_escape_plain by assumption. cbn [steps step].
+  apply N.eqb_neq in Nq, N1, N0. rewrite Nq, N1, N0. reflexivity.
+Qed.
+
+Definition quot_escape (c : N) : str := replace1 34 [38; 113; 117; 111; 116; 59] (sax_escape [c]).
+
+Lemma quot_char c acc : c <> 0 ->
+  steps (SAttrValue true tag attrs an acc) (quot_escape c) = (SAttrValue true tag attrs an (acc ++ [c]), []).
+Proof.
+  intros N0. unfold quot_escape.
+  destruct (N.eq_dec c 34) as [->|Nq]; [reflexivity|].
+  destruct (N.eq_dec c 38) as [->|N1]; [reflexivity|].
+  destruct (N.eq_dec c 60) as [->|N2]; [reflexivity|].
+  destruct (N.eq_dec c 62) as [->|N3]; [reflexivity|].
+  destruct (N.eq_dec c 10) as [->|N4]; [reflexivity|].
+  destruct (N.eq_dec c 13) as [->|N5]; [reflexivity|].
+  destruct (N.eq_dec c 9) as [->|N6]; [reflexivity|].
+  rewrite sax_escape_plain by assumption. rewrite replace1_single_ne by assumption. cbn [steps step].
+  apply N.eqb_neq in Nq, N1, N0. rewrite Nq, N1, N0. reflexivity.
+Qed.
+
+Lemma sax_escape_flat v : sax_escape v = flat_map (fun c => sax_escape [c]) v.
+Proof.
+  induction v as [|c v IH]; [reflexivity|]. rewrite sax_escape_cons, IH. reflexivity.
+Qed.
+
+Lemma sax_keeps c v : In c v -> c <> 38 -> c <> 60 -> c <> 62 -> c <> 10 -> c <> 13 -> c <> 9 ->
+  In c (sax_escape v).
+Proof.
+  intros Hin; intros. induction v as [|d v IH]; [destruct Hin|].
+  rewrite sax_escape_cons. apply in_or_app. destruct Hin as [->|Hin].
+  - left. rewrite sax_escape_plain by assumption. left. reflexivity.
+  - right. apply IH. exact Hin.
+Qed.
+
+Lemma memN_false c l : memN c l = false -> ~ In c l.
+Proof.
+  intros H Hin. unfold memN in H. assert (existsb (N.eqb c) l = true); [|congruence].
+  apply existsb_exists. exists c. split; [exact Hin | apply N.eqb_refl].
+Qed.
+
+Lemma quot_flat v : replace1 34 (s "&quot;") (sax_escape v) = flat_map quot_escape v.
+Proof. rewrite sax_escape_flat, replace1_flat_map. reflexivity. Qed.
+
+Lemma before_value_dq rest' :
+  run (SBeforeAttrValue tag attrs an) ([34] ++ rest') = run (SAttrValue true tag attrs an []) rest'.
+Proof. reflexivity. Qed.
+Lemma before_value_sq rest' :
+  run (SBeforeAttrValue tag attrs an) ([39] ++ rest') = run (SAttrValue false tag attrs an []) rest'.
+Proof. reflexivity. Qed.
+Lemma close_dq av rest' :
+  run (SAttrValue true tag attrs an av) ([34] ++ rest') = run (SAfterAttrValue tag (attrs ++ [(an, av)])) rest'.
+Proof. reflexivity. Qed.
+Lemma close_sq av rest' :
+  run (SAttrValue false tag attrs an av) ([39] ++ rest') = run (SAfterAttrValue tag (attrs ++ [(an, av)])) rest'.
+Proof. reflexivity. Qed.
+
+Theorem attr_inert_run v : ~ In 0 v -> forall rest,
+  run (SBeforeAttrValue tag attrs an) (quoteattr v ++ rest)
+  = run (SAfterAttrValue tag (attrs ++ [(an, v)])) rest.
+Proof.
+  intros H0 rest. unfold quoteattr.
+  assert (Hne : forall c, In c v -> c <> 0) by (intros c Hc E; subst; contradiction).
+  destruct (memN 34 (sax_escape v)) eqn:E34.
+  - destruct (memN 39 (sax_escape v)) eqn:E39.
+    + (* value in double quotes, the double quote escaped *)
+      rewrite <- !app_assoc, before_value_dq, quot_flat.
+      rewrite (attr_flat true quot_escape v) by (intros c Hc acc; apply quot_char, Hne, Hc).
+      apply close_dq.
+    + (* value in single quotes: v has no single quote *)
+      assert (H39 : ~ In 39 v).
+      { intro Hin. apply (memN_false _ _ E39). apply sax_keeps; [exact Hin | discriminate..]. }
+      rewrite <- !app_assoc, before_value_sq, sax_escape_flat.
+      rewrite (attr_flat false (fun c => sax_escape [c]) v).
+      * apply close_sq.
+      * intros c Hc acc. apply sax_char; [intro E; subst; contradiction | apply Hne, Hc].
+  - (* value in double quotes: v has no double quote *)
+    assert (H34 : ~ In 34 v).
+    { intro Hin. apply (memN_false _ _ E34). apply sax_keeps; [exact Hin | discriminate..]. }
+    rewrite <- !app_assoc, before_value_dq, sax_escape_flat.
+    rewrite (attr_flat true (fun c => sax_escape [c]) v).
+    + apply close_dq.
+    + intros c Hc acc. apply sax_char; [intro E; subst; contradiction | apply Hne, Hc].
+Qed.
+End Attr.
+
+Theorem attr_inert v : ~ In 0 v ->
+  tokenize ([60; 97; 32; 104; 114; 101; 102; 61] ++ quoteattr v ++ [62])
+  = [StartTag [97] [([104; 114; 101; 102], v)] false].
+Proof.
+  intro H0. unfold tokenize.
+  rewrite (run_steps (SData []) _ (SBeforeAttrValue [97] [] [104; 114; 101; 102])) by reflexivity.
+  rewrite attr_inert_run by exact H0. reflexivity.
+Qed.
+
+(** ** Ids *)
+Lemma lstrip_by_Forall (P : N -> Prop) p x : Forall P x -> Forall P (lstrip_by p x).
+Proof.
+  induction 1 as [|c x Hc Hx IH]; [constructor|]. cbn [lstrip_by]. destruct (p c); [exact IH | constructor; assumption].
+Qed.
+
+Lemma rstrip_by_Forall (P : N -> Prop) p x : Forall P x -> Forall P (rstrip_by p x).
+Proof.
+  induction 1 as [|c x Hc Hx IH]; [constructor|]. cbn [rstrip_by].
+  destruct (rstrip_by p x) as [|d r].
+  - destruct (p c); constructor; [exact Hc | constructor].
+  - constructor; assumption.
+Qed.
+
+Lemma sanitize_ok x : Forall (fun c => id_char_ok c = true) (sanitize x).
+Proof.
+  unfold sanitize. induction x as [|c x IH]; [constructor|]. cbn [map]. constructor; [|exact IH].
+  destruct (id_char_ok c) eqn:E; [exact E | reflexivity].
+Qed.
+
+Theorem id_charset names idx prefix i :
+  generate_subrecipe_output_id names idx prefix = Ok i ->
+  exists n, i = prefix ++ n /\ Forall (fun c => id_char_ok c = true) n.
+Proof.
+  unfold generate_subrecipe_output_id, id_name. destruct (nth_error names idx) as [nm|]; [|discriminate].
+  destruct (svs_text nm) as [x|]; [|discriminate]. intro H. inversion H; subst.
+  exists (strip_dash (sanitize x)). split; [reflexivity|].
+  unfold strip_dash. apply rstrip_by_Forall, lstrip_by_Forall, sanitize_ok.
+Qed.
+
+(** ** markupsafe.escape (Jinja autoescape) *)
+Lemma markup_escape_app a b : markup_escape (a ++ b) = markup_escape a ++ markup_escape b.
+Proof. unfold markup_escape. rewrite !replace1_app. reflexivity. Qed.
+
+Lemma markup_escape_cons c x : markup_escape (c :: x) = markup_escape [c] ++ markup_escape x.
+Proof. change (c :: x) with ([c] ++ x). apply markup_escape_app. Qed.
+
+Lemma markup_escape_plain c : c <> 38 -> c <> 60 -> c <> 62 -> c <> 34 -> c <> 39 -> markup_escape [c] = [c].
+Proof. intros. unfold markup_escape. rewrite !replace1_single_ne by assumption. reflexivity. Qed.
+
+Lemma markup_char_data c acc : steps (SData acc) (markup_escape [c]) = (SData (acc ++ [c]), []).
+Proof.
+  destruct (N.eq_dec c 38) as [->|N1]; [reflexivity|].
+  destruct (N.eq_dec c 60) as [->|N2]; [reflexivity|].
+  destruct (N.eq_dec c 62) as [->|N3]; [reflexivity|].
+  destruct (N.eq_dec c 34) as [->|N4]; [reflexivity|].
+  destruct (N.eq_dec c 39) as [->|N5]; [reflexivity|].
+  rewrite markup_escape_plain by assumption. cbn [steps step].
+  apply N.eqb_neq in N1, N2. rewrite N1, N2. reflexivity.
+Qed.
+
+Theorem markup_inert_text x : forall acc rest,
+  run (SData acc) (markup_escape x ++ rest) = run (SData (acc ++ x)) rest.
+Proof.
+  induction x as [|c x IH]; intros acc rest.
+  - rewrite app_nil_r. reflexivity.
+  - rewrite markup_escape_cons, <- app_assoc.
+    rewrite (run_steps _ _ _ _ (markup_char_data c acc)). rewrite IH, <- app_assoc. reflexivity.
+Qed.
+
+Lemma markup_char_attr tag attrs an c acc : c <> 0 ->
+  steps (SAttrValue true tag attrs an acc) (markup_escape [c]) = (SAttrValue true tag attrs an (acc ++ [c]), []).
+Proof.
+  intro N0.
+  destruct (N.eq_dec c 38) as [->|N1]; [reflexivity|].
+  destruct (N.eq_dec c 60) as [->|N2]; [reflexivity|].
+  destruct (N.eq_dec c 62) as [->|N3]; [reflexivity|].
+  destruct (N.eq_dec c 34) as [->|N4]; [reflexivity|].
+  destruct (N.eq_dec c 39) as [->|N5]; [reflexivity|].
+  rewrite markup_escape_plain by assumption. cbn [steps step].
+  apply N.eqb_neq in N4, N1, N0. rewrite N4, N1, N0. reflexivity.
+Qed.
+
+Theorem markup_inert_attr tag attrs an v : ~ In 0 v -> forall acc rest,
+  run (SAttrValue true tag attrs an acc) (markup_escape v ++ rest)
+  = run (SAttrValue true tag attrs an (acc ++ v)) rest.
+Proof.
+  induction v as [|c v IH]; intros H0 acc rest.
+  - rewrite app_nil_r. reflexivity.
+  - rewrite markup_escape_cons, <- app_assoc.
+    rewrite (run_steps _ _ _ _ (markup_char_attr tag attrs an c acc ltac:(intro E; subst; apply H0; left; reflexivity))).
+    rewrite IH by (intro Hin; apply H0; right; exact Hin). rewrite <- app_assoc. reflexivity.
 Qed.
